@@ -116,3 +116,34 @@ def c04_family(tier):
             steps.append({"op": "reorg", "n": base})
             out.append(steps)
     return out
+
+
+def c19_family(tier):
+    """a signed transaction parked with txid A, parked again (same bytes) with txid B in a later block, a reorg to a height
+    between the two, then drained: it must see A.  Variants: with/without commits, reorg target before the first parking."""
+    out = []
+    for commit in (False, True):
+        for target in (2, 1, 3):
+            s = [{"op": "init", "hash": "h100", "ts": 100, "height": 0},
+                 {"op": "tx", "via": "deploy", "from": "s1", "to": "NULL", "ckind": "probe", "ops": [], "lc": {"fn": "none"}, "insc": "pd",
+                  "idx": 0, "hash": "h1", "ts": 101, "gas": "ample", "txid": "x1", "enc": "hex"},
+                 {"op": "finalise", "ts": 101, "hash": "h1", "count": 1}]
+            park = lambda txid, hh, ts, insc: {"op": "transact", "signer": "k1", "nonce": 1, "to": "c_s1_0", "ckind": "NULL", "ops": [], "chain": "own",
+                                               "insc": insc, "idx": 0, "hash": hh, "ts": ts, "txid": txid, "gas": "ample", "enc": "hex"}
+            s.append(park("x21", "h2", 102, "pa"))
+            s.append({"op": "finalise", "ts": 102, "hash": "h2", "count": 0})
+            if commit:
+                s.append({"op": "commit"})
+            s.append(park("x22", "h3", 103, "pb"))
+            s.append({"op": "finalise", "ts": 103, "hash": "h3", "count": 0})
+            if commit:
+                s.append({"op": "commit"})
+            s.append({"op": "reorg", "n": target})
+            hh = "h%d" % (40 + target)
+            s.append({"op": "transact", "signer": "k1", "nonce": 0, "to": "c_s1_0", "ckind": "NULL", "ops": [], "chain": "own", "insc": "pc",
+                      "idx": 0, "hash": hh, "ts": 150, "txid": "x23", "gas": "ample", "enc": "hex"})
+            s.append({"op": "finalise", "ts": 150, "hash": hh, "count": 2 if target >= 2 else 1})
+            s.append({"op": "commit"})
+            s.append({"op": "restart"})
+            out.append(s)
+    return out
